@@ -1,7 +1,9 @@
 package ptypes
 
 import (
+	"crypto/sha256"
 	"encoding/binary"
+	"fmt"
 	"os"
 	"testing"
 
@@ -158,14 +160,96 @@ func runC03Block(ctx *ev.Ctx, c c03Case) {
 	if blk.Header.TransactionsRoot != common.Uint256(p.root) || len(blk.Transactions) != n {
 		ctx.Failf("decoded block differs from the encoded one")
 	}
+	// (b) the same block with any other header root must be refused - for every n, including the empty block
+	var extra wr
+	xt := c02Tx{Nonce: uint32(c.Seed) + uint32(n), ChainID: c.Seed >> 32, Code: c.Code, Payer: make([]byte, 20)}
+	xt.encUnsigned(&extra)
+	var seedb [9]byte
+	binary.LittleEndian.PutUint64(seedb[:], c.Seed)
+	seedb[8] = byte(n)
+	ones := [32]byte{}
+	for i := range ones {
+		ones[i] = 0xFF
+	}
+	flipped := p.root
+	flipped[int(c.Seed%32)] ^= 1 << (c.Seed % 8)
+	wrong := []struct {
+		name string
+		root [32]byte
+	}{
+		{"the zero hash", [32]byte{}},
+		{"an all-ones root", ones},
+		{"an arbitrary root", dsha(seedb[:])},
+		{"the reference root with one bit flipped", flipped},
+		{"the root of n+1 transactions", refMerkle(append(append([][32]byte(nil), p.hashes...), dsha(extra.b)))},
+		{"the root with the odd node paired with zero", variantMerkle(p.hashes, "oddzero")},
+		{"the single-SHA root", variantMerkle(p.hashes, "single")},
+	}
+	if n >= 1 {
+		wrong = append(wrong, struct {
+			name string
+			root [32]byte
+		}{"the root of the first n-1 transactions", refMerkle(p.hashes[:n-1])})
+	}
 	if n >= 2 {
-		// a root that is not the reference root must be refused: use the root of the list without its last tx
-		other := refMerkle(p.hashes[:n-1])
-		p2 := planBlock(h, txs, sigsOf(txs), &other, nil, nil)
+		rev := make([][32]byte, n)
+		for i := range rev {
+			rev[i] = p.hashes[n-1-i]
+		}
+		wrong = append(wrong, struct {
+			name string
+			root [32]byte
+		}{"the root of the reversed list", refMerkle(rev)})
+	}
+	tried := 0
+	for _, wg := range wrong {
+		if wg.root == p.root {
+			continue // coincides with the reference root for this n (e.g. zero hash for the empty block)
+		}
+		tried++
+		r := wg.root
+		p2 := planBlock(h, txs, sigsOf(txs), &r, nil, nil)
 		if _, err := decodeBlock(ctx, p2.raw); err == nil {
-			ctx.Failf("block of %d txs accepted with the root of its first %d txs", n, n-1)
+			ctx.Failf("block of %d txs whose header commits to %s (%x) instead of the reference root %x is accepted by the decoder",
+				n, wg.name, r[:], p.root[:])
 		}
 	}
+	if tried < 4 {
+		ctx.Failf("harness: only %d wrong roots for n=%d", tried, n)
+	}
+	ctx.Label(fmt.Sprintf("block:n=%s", map[bool]string{true: fmt.Sprint(n), false: ">=4"}[n < 4]))
+}
+
+// variantMerkle: deliberately WRONG roots (used only as header roots that must be refused).
+func variantMerkle(hs [][32]byte, variant string) [32]byte {
+	if len(hs) == 0 {
+		return [32]byte{1}
+	}
+	if len(hs) == 1 {
+		if variant == "single" {
+			return sha256.Sum256(hs[0][:])
+		}
+		return dsha(hs[0][:])
+	}
+	var next [][32]byte
+	for i := 0; i < len(hs); i += 2 {
+		var cat [64]byte
+		copy(cat[:32], hs[i][:])
+		if i+1 < len(hs) {
+			copy(cat[32:], hs[i+1][:])
+		} else if variant != "oddzero" {
+			copy(cat[32:], hs[i][:])
+		}
+		if variant == "single" {
+			next = append(next, sha256.Sum256(cat[:]))
+		} else {
+			next = append(next, dsha(cat[:]))
+		}
+	}
+	if len(next) == 1 {
+		return next[0]
+	}
+	return variantMerkle(next, variant)
 }
 
 func TestC03(t *testing.T) {
@@ -179,14 +263,18 @@ func TestC03(t *testing.T) {
 			}
 			cases = append(cases, c03Case{Mode: "hashes", Seed: uint64(n), Idx: idx})
 		}
+		// and every block size 0..24 (thorough 0..80): correct root accepted, wrong roots refused
+		for n := 0; n <= ev.Scale(24, 80); n++ {
+			cases = append(cases, c03Case{Mode: "block", Seed: uint64(1000 + n), N: n})
+		}
 		ev.DriveList(t, "C03", cases, runC03)
 		if t.Failed() {
 			return
 		}
 	}
 	ev.Drive(t, "C03",
-		"cases: every list length 0..130 (thorough 0..600) once, then lists of 0..300 (thorough 0..1200) 32-byte hashes (pseudo-random, heavily repeated, all-zero / all-ones, explicit arbitrary leaves) "+
-			"handed to ComputeMerkleRoot, and blocks of 0..40 (thorough 0..130) real transactions through RebuildMerkleRoot and the block decoder; "+
+		"cases: every list length 0..130 (thorough 0..600) and every block size 0..24 (thorough 0..80) once, then lists of 0..300 (thorough 0..1200) 32-byte hashes (pseudo-random, heavily repeated, all-zero / all-ones, explicit arbitrary leaves) "+
+			"handed to ComputeMerkleRoot, and blocks of 0..40 (thorough 0..130) real transactions through RebuildMerkleRoot and the block decoder (reference root accepted; zero / all-ones / arbitrary / bit-flipped / n-1 / n+1 / reversed / odd-paired-with-zero / single-SHA roots refused, for every n incl. 0); "+
 			"oracle: independent recursive Bitcoin-style double-SHA-256 root. non-trivial: n >= 3 and some tree level has odd width; distinct by JSON encoding of the case",
 		genC03, runC03)
 }
